@@ -270,8 +270,13 @@ class TorState(object):
 
         self.post_bootstrap = defer.Deferred()
         if bootstrap:
+            def protocol_failed(fail):
+                self.post_bootstrap.errback(fail)
+                # anyone else waiting on the protocol's Deferred (a
+                # TorConfig, say) has to see this too
+                return fail
             self.protocol.post_bootstrap.addCallback(self._bootstrap)
-            self.protocol.post_bootstrap.addErrback(self.post_bootstrap.errback)
+            self.protocol.post_bootstrap.addErrback(protocol_failed)
 
     def _create_router(self, **kw):
         id_hex = hexIdFromHash(kw['idhash'])
